@@ -32,9 +32,9 @@ class Unk:
 
 
 class Raised(Exception):
-    def __init__(self, name: str, node=None):
+    def __init__(self, name: str, node=None, detail: str = ""):
         super().__init__(name)
-        self.name, self.node = name, node
+        self.name, self.node, self.detail = name, node, detail
 
 
 class _Return(Exception):
@@ -145,7 +145,11 @@ class Interp:
             "isinstance": PyFunc(self._isinstance, "isinstance", True), "zip": PyFunc(lambda *a: list(zip(*a)), "zip", True),
             "enumerate": PyFunc(lambda a, start=0: list(enumerate(a, start)), "enumerate", True),
             "reversed": PyFunc(lambda a: list(reversed(a)), "reversed", True),
-            "any": PyFunc(any, "any"), "all": PyFunc(all, "all"), "hasattr": PyFunc(lambda *a: Unk("hasattr"), "hasattr", True),
+            "any": PyFunc(any, "any"), "all": PyFunc(all, "all"), "hasattr": PyFunc(self._hasattr, "hasattr", True), "format": PyFunc(format, "format"),
+            "bin": PyFunc(bin, "bin"), "hex": PyFunc(hex, "hex"), "set": PyFunc(self._set, "set", True),
+            "object": ClassRef("object"),
+            "filter": PyFunc(lambda f, seq: [x for x in list(seq) if self.truth(self.call(f, [x], {}) if f is not None else x)], "filter", True),
+            "map": PyFunc(lambda f, *seqs: [self.call(f, list(xs), {}) for xs in zip(*[list(q) for q in seqs])], "map", True), "iter": PyFunc(iter, "iter"), "next": PyFunc(next, "next"),
             "print": PyFunc(lambda *a, **k: None, "print", True),
             "getattr": PyFunc(lambda o, n, *d: self.getattr_value(o, n), "getattr", True),
             "True": True, "False": False, "None": None,
@@ -174,6 +178,8 @@ class Interp:
                                             "ascii_uppercase": "ABCDEFGHIJKLMNOPQRSTUVWXYZ"}),
         }
         self.class_call_hook = None
+        # classes whose instances (Obj of that kind) resolve attributes through the repository source
+        self.instance_classes = {"MultiVector": "multivector.MultiVector", "TapeRecorder": "taperecorder.TapeRecorder"}
 
     # ------------------------------------------------------------------ builtins
     def _len(self, v):
@@ -184,6 +190,29 @@ class Interp:
                 return v.methods["__len__"]()
             return Unk("len")
         return len(v)
+
+    def _hasattr(self, v, name):
+        if isinstance(v, Unk):
+            return Unk("hasattr")
+        if isinstance(v, Closure):
+            return name in ("__code__", "__name__", "__call__")
+        if isinstance(v, (PyFunc, Bound)):
+            return name in ("__call__",)
+        if isinstance(v, Obj):
+            if name in v.attrs or name in v.methods:
+                return True
+            if v.kind in self.instance_classes:
+                return self._class_def(v.kind, name) is not None
+            return False
+        if isinstance(v, T):
+            return name in self.tables.get(v.cls, {})
+        return hasattr(v, name)
+
+    def _set(self, *a):
+        try:
+            return set(*a)
+        except TypeError:
+            return Unk("set")
 
     def _abs(self, v):
         if isinstance(v, (int, float, Fraction)):
@@ -222,7 +251,7 @@ class Interp:
             if isinstance(v, Unk):
                 return Unk("isinstance")
             if name in PY_TYPES:
-                if isinstance(v, PY_TYPES[name]) and not (name == "int" and isinstance(v, bool) and False):
+                if isinstance(v, PY_TYPES[name]):
                     return True
                 continue
             if name in ("Callable",):
@@ -233,8 +262,12 @@ class Interp:
                 if v.kind == name:
                     return True
                 continue
-            if _concrete(v):
+            if name == "Mapping":
+                if isinstance(v, dict):
+                    return True
                 continue
+            if isinstance(v, (int, float, str, tuple, list, dict, set, Fraction, range, type(None), Closure, PyFunc, Bound)):
+                continue  # a plain Python value is not an instance of a library class
             return Unk("isinstance")
         return res
 
@@ -429,10 +462,29 @@ class Interp:
                 return PyFunc(v.methods[name], f"{v.kind}.{name}", True)
             if "__getattr__" in v.methods:
                 return v.methods["__getattr__"](name)
+            if v.kind in self.instance_classes:
+                return self._instance_attr(v, name, node)
             return Unk(f"{v.kind}.{name}")
         if isinstance(v, Unk):
             return Unk(f"{v.desc}.{name}")
+        if isinstance(v, Closure):
+            if name == "__code__":
+                a = v.node.args
+                return Obj("code", {"co_argcount": len(a.posonlyargs) + len(a.args)})
+            if name == "__name__":
+                return getattr(v.node, "name", "<lambda>")
+            return Unk(f"function.{name}")
         if isinstance(v, ClassRef):
+            if v.name in self.instance_classes:
+                d = self._class_def(v.name, name)
+                if isinstance(d, ast.FunctionDef):
+                    decos = {un(x) for x in d.decorator_list}
+                    module = self.instance_classes[v.name].split(".")[0]
+                    if "classmethod" in decos:
+                        return PyFunc(lambda *a, **k: self.call_function(d, [v] + list(a), k, {}, module), f"{v.name}.{name}", True)
+                    return PyFunc(lambda *a, **k: self.call_function(d, list(a), k, {}, module), f"{v.name}.{name}", True)
+            if v.name == "object" and name == "__new__":
+                return PyFunc(lambda cls, *a, **k: Obj(cls.name if isinstance(cls, ClassRef) else "object"), "object.__new__", True)
             return Unk(f"{v.name}.{name}")
         if isinstance(v, (list, tuple, dict, str)) and hasattr(v, name):
             return PyFunc(getattr(v, name), name, True)
@@ -441,6 +493,40 @@ class Interp:
                 return v
             raise Raised("AttributeError", node)
         return Unk(name)
+
+    def _class_def(self, cls_name, attr):
+        """Definition of `attr` in the class body (follows one level of class-level aliasing)."""
+        qual = self.instance_classes[cls_name]
+        cls = self.repo.cls(qual)
+        found = None
+        for st in cls.body:
+            if isinstance(st, ast.FunctionDef) and st.name == attr:
+                found = st
+            elif isinstance(st, ast.Assign) and any(isinstance(t, ast.Name) and t.id == attr for t in st.targets):
+                if isinstance(st.value, ast.Name):
+                    found = self._class_def(cls_name, st.value.id)
+                else:
+                    found = st
+        return found
+
+    def _instance_attr(self, v, name, node=None):
+        d = self._class_def(v.kind, name)
+        module = self.instance_classes[v.kind].split(".")[0]
+        if isinstance(d, ast.FunctionDef):
+            decos = {un(x) for x in d.decorator_list}
+            if decos & {"property", "cached_property", "functools.cached_property"}:
+                return self.call_function(d, [v], {}, {}, module)
+            if "classmethod" in decos:
+                return PyFunc(lambda *a, **k: self.call_function(d, [ClassRef(v.kind)] + list(a), k, {}, module), name, True)
+            if "staticmethod" in decos:
+                return PyFunc(lambda *a, **k: self.call_function(d, list(a), k, {}, module), name, True)
+            return PyFunc(lambda *a, **k: self.call_function(d, [v] + list(a), k, {}, module), f"{v.kind}.{name}", True)
+        if d is not None:
+            return Unk(f"{v.kind}.{name}")
+        ga = self._class_def(v.kind, "__getattr__")
+        if isinstance(ga, ast.FunctionDef):
+            return self.call_function(ga, [v, name], {}, {}, module)
+        raise Raised("AttributeError", node)
 
     # ------------------------------------------------------------------ calls
     def call(self, f, args, kwargs, node=None):
@@ -876,6 +962,7 @@ class Interp:
             v = self.call_function(fn, args, kwargs or {}, {}, module)
             return ("return", v)
         except Raised as r:
+            self.last_raise = r
             return ("raise", r.name)
         except RecursionError:
             raise NoValue("python recursion limit")
@@ -888,7 +975,7 @@ def _load(target):
 
 class Env:
     def __init__(self, local, closure, module, interp: Interp):
-        self.local, self.closure, self.module, self.interp = local, closure or {}, module, interp
+        self.local, self.closure, self.module, self.interp = local, (closure if closure is not None else {}), module, interp
 
     def flat(self):
         d = dict(self.closure)
@@ -946,7 +1033,7 @@ class Env:
         import builtins as _b
         if hasattr(_b, name):
             return ClassRef(name) if isinstance(getattr(_b, name), type) else Unk(f"builtin {name}")
-        raise Raised("NameError")
+        raise Raised("NameError", None, name)
 
 
 class _Live(dict):
